@@ -146,6 +146,16 @@ def tape_map(tp, f):
     return [(k, go(bl)) for k, bl in tp]
 
 # ----------------------------------------------------------------------------- edit batches on the engine, with oracle recording
+def _real_find(m, t):
+    """first occurrence of t in the projection that touches a span with a run and no deleted span (the model's find_on), computed here
+    independently of the implementation's own helper"""
+    i = m.full_text.find(t)
+    while i != -1:
+        cov = [s for s in m.spans if s.run is not None and s.end > i and s.start < i + len(t)]
+        if cov and not any(s.del_id for s in cov): return i
+        i = m.full_text.find(t, i + 1)
+    return -1
+
 def engine_edits(b, edits, author='Tester'):
     """edits: [(target, new, comment|None, index|None)] -> dict(ap, sk, out, oracle, ts, err)"""
     from adeu.redline.engine import RedlineEngine
@@ -155,7 +165,7 @@ def engine_edits(b, edits, author='Tester'):
     orig = DocumentMapper.find_match_index
     def wrapped(self, target_text):
         r = orig(self, target_text)
-        if self.full_text.find(target_text) == -1:
+        if _real_find(self, target_text) == -1:
             rec.append(None if r[0] == -1 else [r[0], r[1]])
             if r[0] != -1 and not (0 <= r[0] and r[0] + r[1] <= len(self.full_text)): rec.append('CONTRACT')
         return r
